@@ -70,7 +70,10 @@ def layouts(max_samples, max_plates, max_size, max_total):
     return out
 
 
-def build_rows(layout, n_obs, pool="mixed", all_observed=False, mix=None):
+LOOKALIKE = ["P1", "P1 ", " P1", "p1", "P1\t", "P1  "]  # plate labels equal up to blanks / case are different plates
+
+
+def build_rows(layout, n_obs, pool="mixed", all_observed=False, mix=None, lookalike=False):
     """layout: list (per sample) of unobserved plate sizes; n_obs rows go to an
     observed plate 'obs' (cycling over the samples)."""
     P = POOL_COMBO_ONLY if pool == "combo" else (POOL[6:] + POOL[:6] if pool == "mixed5" else (POOL_TRIPLE if pool == "triple" else POOL))
@@ -82,14 +85,14 @@ def build_rows(layout, n_obs, pool="mixed", all_observed=False, mix=None):
         for size in sizes:
             for _ in range(size):
                 tr = P[(j + 2 * s) % len(P)] if pool != "triple" else P[j % len(P)]  # triple: every sample gets the same triples
-                rows.append((f"s{s}", f"p{pid}", tr, round(0.05 + 0.1 * g, 4), all_observed))
+                rows.append((f"s{s}", LOOKALIKE[pid % len(LOOKALIKE)] if lookalike else f"p{pid}", tr, round(0.05 + 0.1 * g, 4), all_observed))
                 g += 1
                 j += 1
             pid += 1
     for k in range(n_obs):
         s = k % len(layout)
         tr = P[(k + 1) % len(P)]
-        rows.append((f"s{s}", "obs", tr, round(0.05 + 0.1 * g, 4), True))
+        rows.append((f"s{s}", "  P1" if lookalike else "obs", tr, round(0.05 + 0.1 * g, 4), True))
         g += 1
     if mix:
         # one more unobserved plate whose wells belong to several samples, in the given order (e.g. s0, s1, s0)
@@ -197,6 +200,13 @@ def plan(tier, prop):
                     if kind == "holdout_random" and sum(sum(t) for t in lay) + n_obs > (4 if tier == "quick" else 6):
                         continue
                     items.append({"op": kind, "params": {"fraction": f}, "layout": lay, "n_obs": n_obs, "pool": "mixed"})
+    # plate labels that differ only by blanks / case (each is a plate of its own): hold-outs and the generators that keep labels
+    for lay in lay_gen:
+        if 2 <= sum(len(t) for t in lay) <= 5 and sum(sum(t) for t in lay) <= 4:
+            for f in (0.5, 1.0):
+                items.append({"op": "holdout_plate", "params": {"fraction": f}, "layout": lay, "n_obs": 2, "pool": "mixed", "lookalike": True})
+            items.append({"op": "permutation", "params": {"force": None}, "layout": lay, "n_obs": 0, "pool": "mixed", "lookalike": True})
+            items.append({"op": "merge_min", "params": {"min_size": 2}, "layout": lay, "n_obs": 0, "pool": "mixed", "lookalike": True})
     # the hold-out through the command line (fraction parsing / defaults are part of what the user gets)
     if prop == "C11":
         for lay in lay_gen:
@@ -245,7 +255,7 @@ def execute(item, chooser):
     """Run one operation on one input with one answer sequence.
     Returns (input_screen, outputs or None, exception or None)."""
     kind = item["op"]
-    rows = build_rows(item["layout"], item["n_obs"], item["pool"], all_observed=(kind == "sparse_cover"), mix=item.get("mix"))
+    rows = build_rows(item["layout"], item["n_obs"], item["pool"], all_observed=(kind == "sparse_cover"), mix=item.get("mix"), lookalike=bool(item.get("lookalike")))
     screen = make_screen(rows, control=CTL)
     before = rows_of(screen)
     rng = ScriptedGenerator(chooser)
@@ -547,7 +557,7 @@ def run_item(prop, item, col):
             continue
         case = {"item": item, "choices": ch.choices}
         if col.evaluations <= 1:
-            col.sample({"op": item["op"], "params": item["params"], "input_rows": build_rows(item["layout"], item["n_obs"], item["pool"], mix=item.get("mix")),
+            col.sample({"op": item["op"], "params": item["params"], "input_rows": build_rows(item["layout"], item["n_obs"], item["pool"], mix=item.get("mix"), lookalike=bool(item.get("lookalike"))),
                         "choices": ch.choices})
         res = oracle(item, before, out)
         outs = out if isinstance(out, tuple) else (out,)
@@ -572,7 +582,7 @@ def replay(prop, case, col):
         print(f"replay: operation refused: {short_exc(exc)}")
         return
     print("input rows:")
-    for r in build_rows(item["layout"], item["n_obs"], item["pool"], mix=item.get("mix")):
+    for r in build_rows(item["layout"], item["n_obs"], item["pool"], mix=item.get("mix"), lookalike=bool(item.get("lookalike"))):
         print("   ", r)
     for o in out if isinstance(out, tuple) else (out,):
         print("output rows:")
